@@ -12,16 +12,40 @@ from explorerscript.ssb_converting.ssb_data_types import SsbOperation, SsbOpCode
 from explorerscript.ssb_converting.ssb_special_ops import SsbLabel, SsbLabelJump, OPS_WITH_JUMP_TO_MEM_OFFSET
 from vlib.hx import verdict, CASE, NATIVE, tb
 
+import os as _os
+
 LAST_DETAIL: Any = None
 _c = CASE or 0
 KINDS = ["plain", "ctx", "Return", "label", "Jump", "Branch"]
-N = tb(3, 4)
-SPLIT = _c % 2
-_k = _c // 2
-EL = []
-for _i in range(N):
-    EL.append(KINDS[_k % 6])
-    _k //= 6
+LONG = _c >= 100000  # second family: 5 elements over {plain, Jump, label, Branch}, one routine (cases 100000 + code)
+if LONG:
+    N = 5
+    SPLIT = 0
+    _k = _c - 100000
+    _K4 = ["plain", "Jump", "label", "Branch"]
+    EL = []
+    for _i in range(N):
+        EL.append(_K4[_k % 4])
+        _k //= 4
+else:
+    N = tb(3, 4)
+    SPLIT = _c % 2
+    _k = _c // 2
+    EL = []
+    for _i in range(N):
+        EL.append(KINDS[_k % 6])
+        _k //= 6
+
+
+def long_cases() -> list[int]:
+    """5-element lists over {plain, Jump, label, Branch} with at least two labels and two jump ops"""
+    import itertools
+
+    out = []
+    for seq in itertools.product(range(4), repeat=5):
+        if sum(1 for k in seq if k == 2) >= 2 and sum(1 for k in seq if k in (1, 3)) >= 2:
+            out.append(100000 + sum(k * 4 ** i for i, k in enumerate(seq)))
+    return out
 
 
 def cases(n: int) -> list[int]:
@@ -75,14 +99,14 @@ def _distinct(xs: list[int]) -> bool:
     return True
 
 
-def h_closure(i0: int, i1: int, i2: int, i3: int, g0: int, g1: int, g2: int, g3: int) -> bool:
+def h_closure(i0: int, i1: int, i2: int, i3: int, g0: int, g1: int, g2: int, g3: int, i4: int = 0, g4: int = 1) -> bool:
     """
-    pre: 0 <= i0 <= 2 and 0 <= i1 <= 2 and 0 <= i2 <= 2 and 0 <= i3 <= 2
-    pre: 1 <= g0 <= 3 and 1 <= g1 <= 3 and 1 <= g2 <= 3 and 1 <= g3 <= 3
+    pre: 0 <= i0 <= 2 and 0 <= i1 <= 2 and 0 <= i2 <= 2 and 0 <= i3 <= 2 and 0 <= i4 <= 2
+    pre: 1 <= g0 <= 3 and 1 <= g1 <= 3 and 1 <= g2 <= 3 and 1 <= g3 <= 3 and 1 <= g4 <= 3
     post: _
     """
     global LAST_DETAIL
-    routines, defined, used = build([i0, i1, i2, i3], [g0, g1, g2, g3])
+    routines, defined, used = build([i0, i1, i2, i3, i4], [g0, g1, g2, g3, g4])
     if not _distinct(defined):
         return verdict(True)  # a label defined twice cannot come out of the visitors (one object per name)
     all_defined = True
@@ -118,6 +142,16 @@ def h_closure(i0: int, i1: int, i2: int, i3: int, g0: int, g1: int, g2: int, g3:
     return verdict(ok)
 
 
+OBLIGATIONS_LONG = {"id": "C03.S1b", "module": __name__, "func": "h_closure",
+                    "what": "same closure post-condition on 5-element lists (label directly before a removable jump, several "
+                            "labels in a row, jumps to labels that end up at the routine end ...)",
+                    "cases": long_cases(), "timeout": {"quick": 200, "thorough": 900},
+                    "bounds": "5 elements over {op, Jump->label, label, Branch->label} with >=2 labels and >=2 jump ops (240 "
+                              "kind sequences, one routine), label ids symbolic in 0..2, offsets with symbolic gaps 0-2",
+                    "encodes": ["explorerscript.ssb_converting.compiler.utils.strip_last_label",
+                                "explorerscript.ssb_converting.compiler.label_finalizer.LabelFinalizer",
+                                "explorerscript.ssb_converting.compiler.label_jump_to_remover.OpsLabelJumpToRemover"]}
+
 OBLIGATIONS = [
     {"id": "C03.S1", "module": __name__, "func": "h_closure",
      "what": "back end on symbolic labelled lists: output offsets pairwise distinct, every jump-carrying op has its target "
@@ -133,4 +167,5 @@ OBLIGATIONS = [
                  "explorerscript.ssb_converting.compiler.utils.routine_op_offsets_are_ordered",
                  "explorerscript.ssb_converting.compiler.label_finalizer.LabelFinalizer",
                  "explorerscript.ssb_converting.compiler.label_jump_to_remover.OpsLabelJumpToRemover"]},
+    OBLIGATIONS_LONG,
 ]
